@@ -251,7 +251,7 @@ class MetricsContext:
         # or create nested metrics otherwise
         return cls(
             ScopeMetrics(
-                trace_id=trace_id,
+                trace_id=trace_id or current.trace_id,
                 scope=name,
                 logger=logger or current._logger,  # pyright: ignore[reportPrivateUsage]
                 parent=parent,
